@@ -195,10 +195,11 @@ def refine_table(ctx):
 
     defs = roles.Defs(fn)
     rets = [s for s in fn.body if isinstance(s, ast.Return)]
-    if not (len(rets) == 1 and isinstance(rets[0].value, ast.Call) and unparse(rets[0].value.func) == "Grid" and len(rets[0].value.args) >= 3
-            and all(isinstance(a, ast.Name) for a in rets[0].value.args[:3])):
+    if not (len(rets) == 1 and isinstance(rets[0].value, ast.Call) and unparse(rets[0].value.func) == "Grid" and len(rets[0].value.args) >= 2
+            and all(isinstance(a, ast.Name) for a in rets[0].value.args[:2])):
         raise AnalysisError("Grid.refine: does not return Grid(<vertices>, <elements>, <domain indices>) built from locals")
-    V, E, D = (a.id for a in rets[0].value.args[:3])
+    V, E = (a.id for a in rets[0].value.args[:2])
+    DOM = rets[0].value.args[2] if len(rets[0].value.args) >= 3 else next((k.value for k in rets[0].value.keywords if k.arg == "domain_indices"), None)
     loops = [s for s in fn.body if isinstance(s, ast.For) and isinstance(s.target, ast.Tuple) and len(s.target.elts) == 2
              and roles.canon(s.iter, defs).replace(" ", "") == "enumerate(self.elements.T)"]
     if len(loops) != 1:
@@ -235,7 +236,8 @@ def refine_table(ctx):
     a, b = "self.vertices[:, self.edges[0, :]]", "self.vertices[:, self.edges[1, :]]"
     mids = {(roles.expect("V[:, self.number_of_vertices:]", defs, ln, V=V), roles.expect(f, defs, ln)) for f in ("0.5 * (%s + %s)" % (a, b), "(%s + %s) / 2" % (a, b), "0.5 * %s + 0.5 * %s" % (a, b))}
     mids_ok = old in vs and len(vs & mids) == 1 and len(vs) == 2
-    dom_ok = per_child_sequence(roles.inline(rets[0].value.args[2], defs), "self.domain_indices", 4, "Grid.refine")
+    # (no domain indices handed to the constructor: it fills in zeros)
+    dom_ok = DOM is not None and not (isinstance(DOM, ast.Constant) and DOM.value is None) and per_child_sequence(roles.inline(DOM, defs), "self.domain_indices", 4, "Grid.refine")
     return [children[c] for c in range(4)], mids_ok, dom_ok, fn.lineno
 
 
